@@ -286,17 +286,22 @@ type result struct {
 	}
 }
 
+const c06Keys = `^(term|entries|entries-error|firstindex|lastindex|snapshot|initialstate|save-error|create-snapshot-error|create-snapshot-value|nil|panic)$`
+
 func main() {
 	thorough := os.Getenv("VERIF_TIER") == "thorough"
 	if len(os.Args) > 2 && os.Args[1] == "--replay" {
+		if ev.PartOf(os.Args[2]) == "C06" {
+			ev.ReplayPart("C03", os.Getenv("VERIF_BIN_C06"), c06Keys, os.Args[2], "VERIF_PART_PHASES=^single-group$")
+		}
 		var f struct {
 			Replay caseT `json:"replay"`
 		}
 		b, _ := os.ReadFile(os.Args[2])
 		json.Unmarshal(b, &f)
 		_, k, d := runCase(f.Replay)
-		if k != "" {
-			fmt.Printf("VIOLATION property=C03 replay=%s\n  %s: %s\n", os.Args[2], k, d)
+		if k != "" && ev.Counts(k) {
+			fmt.Printf("VIOLATION property=%s replay=%s\n  %s: %s\n", ev.As("C03"), os.Args[2], k, d)
 			os.Exit(1)
 		}
 		fmt.Println("replay: property held")
@@ -308,6 +313,10 @@ func main() {
 		len1, len3 = 5, 4
 		budget = 25 * time.Minute
 	}
+	// borrowed phase (ev.RunPart) "replicas": only the three-replica histories, each run to the end and with a crash +
+	// restart of the leader / of a follower after it (no crash-point enumeration): what a replica holds after applying,
+	// after installing a snapshot as a lagging follower, and after restart and replay
+	replicasOnly := os.Getenv("VERIF_AS") != "" && os.Getenv("VERIF_PART_MODE") == "replicas"
 	if si, sn, ok := shard.Child(); ok {
 		res := result{Complete: true}
 		deadline := time.Now().Add(budget)
@@ -343,7 +352,7 @@ func main() {
 					}
 					report(base, k, desc)
 					var cps []crashPoint
-					for j := 1; j <= d; j++ {
+					for j := 1; j <= d && !replicasOnly; j++ {
 						cps = append(cps, crashPoint{Node: t, Count: j}, crashPoint{Node: t, Count: j, After: true})
 					}
 					cps = append(cps, crashPoint{Node: t, AtEnd: true})
@@ -356,7 +365,9 @@ func main() {
 				}
 			}
 		}
-		do(1, histories(len1, true))
+		if !replicasOnly {
+			do(1, histories(len1, true))
+		}
 		do(3, histories(len3, true))
 		shard.Emit(res)
 		return
@@ -377,6 +388,9 @@ func main() {
 		}
 		return nil
 	})
+	// the log store under the replicas: what raft reads back after a restart is what C06 decides; its single-group
+	// phase counts here for every answer raft would get wrong (isolation between groups and group deletion do not)
+	run.RunPart("log-store-C06", os.Getenv("VERIF_BIN_C06"), c06Keys, "VERIF_PART_PHASES=^single-group$")
 	run.Assumptions = []string{
 		"a single Badger write batch / transaction is atomic and durable once Flush/Commit returns; torn writes inside Badger and over-sized batches split by Badger are out of scope",
 		"between two durable writes the durable state is constant, so crashing immediately before the next write dominates every earlier instant of the interval; both ends of every interval are enumerated",
